@@ -501,11 +501,26 @@ U53 = F(1, 2 ** 53)
 
 
 def coq_q(x: float) -> str:
-    """a binary64 value for the case files: P m k = m / 2^k, M m k = -m / 2^k (primitive integer literals)"""
-    n, d = float(x).as_integer_ratio()
-    k = d.bit_length() - 1
-    assert d == 1 << k and abs(n) < 2 ** 62 and k < 2 ** 20
-    return f'(P {n} {k})' if n >= 0 else f'(M {-n} {k})'
+    """a finite binary64 value for the case files: P m k = m / 2^k, M m k = -m / 2^k, PB / MB m k = +-m * 2^k
+    (primitive integer literals; m < 2^53).  Callers never pass nan / inf (see all_finite)."""
+    x = float(x)
+    if x == 0.0:
+        return '(P 0 0)'
+    m, e = math.frexp(abs(x))            # abs(x) = m * 2^e, 0.5 <= m < 1
+    n = int(m * 2 ** 53)                 # exact: m has 53 significant bits
+    e -= 53
+    while n % 2 == 0:
+        n //= 2
+        e += 1
+    assert F(n) * F(2) ** e == F(abs(x))
+    neg = x < 0
+    if e <= 0:
+        return f'({"M" if neg else "P"} {n} {-e})'
+    return f'({"MB" if neg else "PB"} {n} {e})'
+
+
+def all_finite(xs):
+    return all(finite(float(x)) if isinstance(x, (int, float)) else False for x in xs)
 
 
 def coq_frac(f: F) -> str:
@@ -772,15 +787,57 @@ def advertised(key, descr):
 
 
 def strata_ok(xs, N, symmetric):
-    """sorted point j lies in stratum j of N (4 ulps of slack at the stratum ends: the points are rounded)"""
+    """exactly one point in each of the N equal strata.  Fast path: exact integer floor(N * x) of every double, each
+    stratum hit once.  If that fails (or a point sits within 4 ulps of a stratum end, the points being rounded):
+    sorted point j must lie in stratum j, with 4 ulps of slack at the ends."""
+    if len(xs) != N:
+        return False, f'{len(xs)} points for {N} strata'
+    if not all_finite(xs):
+        return False, 'non-finite point'
+    seen = bytearray(N)
+    fast = True
+    for x in xs:
+        num, den = float(x).as_integer_ratio()
+        if symmetric:                   # (x + 1) / 2
+            num, den = num + den, 2 * den
+        k = (num * N) // den
+        if not (0 <= k < N) or seen[k]:
+            fast = False
+            break
+        seen[k] = 1
+    if fast:
+        return True, ''
     ys = sorted(((F(x) + 1) / 2 if symmetric else F(x)) for x in xs)
-    if len(ys) != N:
-        return False, f'{len(ys)} points for {N} strata'
     d = 4 * U53
+    empty = None
     for j, y in enumerate(ys):
         if not (F(j, N) - d <= y < F(j + 1, N) + d):
-            return False, f'sorted point {j} = {float(y)!r} is not in [{j}/{N}, {j + 1}/{N})'
+            occupied = len({int(v * N) for v in ys if 0 <= v < 1})
+            return False, (f'sorted point {j} = {float(y)!r} is not in [{j}/{N}, {j + 1}/{N}); '
+                           f'{occupied} of {N} strata are occupied')
     return True, ''
+
+
+def boundary_sizes(rng, base, skip, count, nmax=4000):
+    """(sample_size, number_of_draws) such that the number of Halton numbers the code must build,
+    sample_size * number_of_draws + skip + 1, sits on or next to a boundary of its doubling construction:
+    i * base^t + delta, delta in -1..2 (i = 1: a whole round; i > 1: a copy inside a round).  delta = 1 is the case
+    'size + skip is an exact power of the base': the last number is the first of a new round."""
+    out = []
+    tries = 0
+    while len(out) < count and tries < 400:
+        tries += 1
+        t = rng.randint(1, 12)
+        i = 1 if rng.random() < 0.6 else rng.randint(1, max(1, base - 1))
+        delta = [1, 1, 0, 2, -1][len(out) % 5] if tries <= count * 3 else rng.choice([-1, 0, 1, 2])
+        N = i * base ** t + delta - skip - 1
+        if not (1 <= N <= nmax):
+            continue
+        divs = [d for d in range(1, min(N, 400) + 1) if N % d == 0]
+        ss = rng.choice(divs)
+        if (ss, N // ss) not in out:
+            out.append((ss, N // ss))
+    return out
 
 
 SIZES = [(1, 2), (3, 10), (7, 64), (50, 200)]
@@ -793,6 +850,8 @@ COQ_HEAD = ('From Coq Require Import ZArith QArith List String Uint63.\n'
             'Local Open Scope Q_scope.\nLocal Open Scope uint63_scope.\n'
             'Definition P (m k : int) : Q := Qmake (Uint63.to_Z m) (Z.to_pos (2 ^ Uint63.to_Z k)).\n'
             'Definition M (m k : int) : Q := Qmake (- Uint63.to_Z m) (Z.to_pos (2 ^ Uint63.to_Z k)).\n'
+            'Definition PB (m k : int) : Q := inject_Z (Uint63.to_Z m * 2 ^ Uint63.to_Z k).\n'
+            'Definition MB (m k : int) : Q := inject_Z (- (Uint63.to_Z m * 2 ^ Uint63.to_Z k)).\n'
             'Definition NL (l : list int) : list N := map (fun i => Z.to_N (Uint63.to_Z i)) l.\n'
             'Definition nat_of (i : int) : nat := Z.to_nat (Uint63.to_Z i).\n'
             'Definition dflt := mkEntry "" "" "" FUniform 0%Z 0%Z false false false false MNone 0%Z false.\n'
@@ -868,12 +927,24 @@ class Reporter:
 # =====================================================================================
 # stream: the 21 catalogued types
 # =====================================================================================
-def type_cases(ctx, cat, sizes, tag='types'):
+def type_cases(ctx, cat, sizes, tag='types', boundary=0, large=()):
+    """sizes: run for every entry.  boundary: that many extra sizes per Halton entry on the boundaries of the doubling
+    construction (incl. size + skip = exact power of the base).  large: keys run once with more than 100000
+    generated points (size thresholds inside the generators)."""
     rng = ctx.sub_rng(tag)
     cases = []
     for (ss, n) in sizes:
         for k, r in enumerate(cat):
             cases.append({'key': r['key'], 'k': k, 'ss': ss, 'n': n, 'seed': rng.randrange(1, 2 ** 31)})
+    for k, r in enumerate(cat):
+        if boundary and r['family'] == 'FHalton' and r['base'] >= 2:
+            for (ss, n) in boundary_sizes(rng, r['base'], r['skip'], boundary):
+                cases.append({'key': r['key'], 'k': k, 'ss': ss, 'n': n, 'seed': rng.randrange(1, 2 ** 31), 'boundary': True})
+        if r['key'] in large:
+            ss = rng.choice([250, 400, 500, 1000])
+            per_row = 100000 // ss + rng.randint(1, 40)              # generated points per row: ss * per_row > 100000
+            n = 2 * per_row if r['half'] else per_row
+            cases.append({'key': r['key'], 'k': k, 'ss': ss, 'n': n, 'seed': rng.randrange(1, 2 ** 31), 'large': True})
     return cases
 
 
@@ -953,6 +1024,10 @@ def oracle_type_case(ctx, rep, ref, rec, c, r, peers, extra=None, how_prefix='')
             uin = r['rec']['uniform'][0]
         if uin is not None and len(uin) != N:
             uin = None
+        if uin is not None and not all_finite(uin):
+            rep(f'C11/support/{key}-uniform-nonfinite', f'{key}: a non-finite number is fed to the quantile transform', wit,
+                'numbers of (0,1)', [x for x in uin if not finite(x)][:3], how)
+            uin = None
     # Halton: radical inverse of the advertised base after the advertised skip
     if adv['halton'] and adv['base']:
         b = adv['base']
@@ -999,7 +1074,7 @@ def oracle_type_case(ctx, rep, ref, rec, c, r, peers, extra=None, how_prefix='')
                 rep(f'C11/mlhs/{key}-strata', f'{key}: the generated part does not put one point in each of {N} strata: {msg}',
                     wit, 'one point per stratum', msg, how)
     # normal: elementwise quantile of the uniform numbers
-    if adv['normal'] and uin is not None:
+    if adv['normal'] and uin is not None and N <= 50000:      # (beyond: the quantile transform is swept by stream quantile)
         for j in range(N):
             kq = classify_quantile(ref, uin[j], gflat[j])
             if kq:
@@ -1014,6 +1089,8 @@ def model_type_case(batch, rec, c, r, owner=None):
     ss, n, k = c['ss'], c['n'], c['k']
     if not r.get('ok') or r.get('rows') is None:
         return 'no array'
+    if r.get('shape') != [ss, n] or not all(all_finite(row) for row in r['rows']):
+        return 'array of another shape or with non-finite numbers (no model value is non-finite)'
     R = n // 2 if rec['half'] else n
     N = ss * R
     rr = r['rec']
@@ -1025,6 +1102,8 @@ def model_type_case(batch, rec, c, r, owner=None):
         return f'RNG calls: {len(rr["uniform"])} uniform / {len(rr["shuffle"])} shuffle, record expects {nu} / {ns}'
     us = rr['uniform'][0] if nu else []
     perm = rr['shuffle'][0] if ns else []
+    if not all_finite(us):
+        return 'non-finite uniform numbers observed'
     if (nu and len(us) != N) or (ns and len(perm) != N):
         return 'RNG calls of unexpected size'
     if rec['family'] == 'FHalton':
@@ -1045,6 +1124,8 @@ def model_type_case(batch, rec, c, r, owner=None):
             uin = us if rec['family'] == 'FUniform' else None
         if uin is None or len(uin) != N:
             return 'uniform numbers fed to the quantile transform not observed'
+        if not all_finite(uin):
+            return 'non-finite numbers fed to the quantile transform'
         uinq = '[' + ';\n '.join(coq_qlist(ch) for ch in chunks(uin)) + ']'
         batch.add(owner, f'chk_uin {k} {ss} {n} {coq_frac(t)} {usq} {coq_nlist(perm)} {uinq}', 3 * N + 50)
     else:
@@ -1054,7 +1135,7 @@ def model_type_case(batch, rec, c, r, owner=None):
     return None
 
 
-def stream_types(ctx, rep, ref, cat, sizes, coq=True, tag='types'):
+def stream_types(ctx, rep, ref, cat, sizes, coq=True, tag='types', boundary=0, large=()):
     streams = {
         'halton': ctx.stream('halton', 'get_halton_draws directly (bases 2..13 incl. non-primes, skips 0..1000, symmetric, shuffled) and '
                              'the 9 Halton types of the catalogue x sizes; implementation doubles vs halton_py in Coq (exact for base 2^k, '
@@ -1066,7 +1147,7 @@ def stream_types(ctx, rep, ref, cat, sizes, coq=True, tag='types'):
         'shape': ctx.stream('shape', 'all 21 types x sizes incl. 1x2, 3x10, 7x64, 50x200: shape, support, Database.generate_draws '
                             'shape enforcement; non-trivial = more than one observation or more than 2 draws'),
     }
-    cases = type_cases(ctx, cat, sizes, tag)
+    cases = type_cases(ctx, cat, sizes, tag, boundary=boundary, large=large)
     res = run_impl(ctx, 'types', cases, per=max(1, len(cases) // 32 + 1))
     by_size = {}
     for c, r in zip(cases, res):
@@ -1090,7 +1171,7 @@ def stream_types(ctx, rep, ref, cat, sizes, coq=True, tag='types'):
         if rec['symmetric']:
             streams['sym'].record(small)
         oracle_type_case(ctx, rep, ref, rec, c, r, by_size[(c['ss'], c['n'])])
-        if coq and (c['ss'] * c['n'] <= 2000 or c['key'] in big_in_coq):
+        if coq and (c['ss'] * c['n'] <= 2000 or (c['key'] in big_in_coq and c['ss'] * c['n'] <= 12000)):
             why = model_type_case(batch, rec, c, r)
             if why:
                 skipped.append((small, why))
@@ -1120,7 +1201,7 @@ def stream_types(ctx, rep, ref, cat, sizes, coq=True, tag='types'):
 # =====================================================================================
 # stream: get_halton_draws called directly
 # =====================================================================================
-def check_halton_call(rep, st, batch, owner, c, r, extra=None, how_prefix=''):
+def check_halton_call(rep, st, batch, owner, c, r, extra=None, how_prefix='', coq=True):
     """one call of get_halton_draws: oracle (exact radical inverse, Fractions) + Coq case (halton_py)"""
     N = c['ss'] * c['n']
     how = how_prefix + (f"np.random.seed({c['seed']}); draws.get_halton_draws({c['ss']}, {c['n']}, symmetric={c['symmetric']}, "
@@ -1166,6 +1247,8 @@ def check_halton_call(rep, st, batch, owner, c, r, extra=None, how_prefix=''):
     elif r['shuffle'] or r['n_uniform']:
         st.disagree(wit, 'no use of the RNG', f'{len(r["shuffle"])} shuffles, {r["n_uniform"]} uniform calls')
         return
+    if not coq:
+        return
     batch.add(owner, f'chk_halton {c["base"]} {N} {c["skip"]} {coq_bool(c["symmetric"])} {coq_bool(c["shuffled"])} '
                      f'{coq_nlist(perm)} {coq_frac(tol_o)} {c["ss"]} {c["n"]} {coq_qrows(r["rows"])}', 2 * N + 50)
 
@@ -1187,11 +1270,27 @@ def stream_halton(ctx, rep):
         cases.append(dict(ss=ss, n=n, base=rng.choice([2, 2, 3, 3, 5, 5, 7, 11, 13, 4, 6, 10]),
                           skip=rng.choice([0, 0, 1, 2, 9, 10, 10, 37, 100, 1000]),
                           symmetric=rng.random() < 0.3, shuffled=rng.random() < 0.25, seed=rng.randrange(1, 2 ** 31)))
+    # boundaries of the doubling construction (size + skip + 1 = i * base^t + delta), every base and skip
+    for _ in range(ctx.n(30, 300)):
+        base = rng.choice([2, 3, 5, 7, 4, 6, 10, 11])
+        skip = rng.choice([0, 0, 1, 3, 10, 10, 37, 100])
+        for (ss, n) in boundary_sizes(rng, base, skip, 1, nmax=ctx.n(1500, 8000)):
+            cases.append(dict(ss=ss, n=n, base=base, skip=skip, symmetric=rng.random() < 0.3, shuffled=rng.random() < 0.2,
+                              seed=rng.randrange(1, 2 ** 31)))
+    # size thresholds: more than 100000 numbers, ending exactly on a power of the base (oracle only, no Coq)
+    for base in ([rng.choice([2, 3, 5])] if ctx.quick else [2, 3, 5, 7]):
+        t = 1
+        while base ** t <= 100000:
+            t += 1
+        skip = rng.choice([0, 10])
+        N = base ** t - skip                       # size + skip = base^t
+        ss = rng.choice([d for d in range(1, 60) if N % d == 0])
+        cases.append(dict(ss=ss, n=N // ss, base=base, skip=skip, symmetric=False, shuffled=False, seed=1))
     res = run_impl(ctx, 'halton', cases)
     batch = Batch(ctx, 'halton')
     for i, (c, r) in enumerate(zip(cases, res)):
         st.record(c, nontrivial=c['ss'] * c['n'] + c['skip'] + 1 > c['base'])
-        check_halton_call(rep, st, batch, i, c, r)
+        check_halton_call(rep, st, batch, i, c, r, coq=c['ss'] * c['n'] <= 12000)
     out, errs = batch.run()
     for e in errs:
         ctx.stream_broken('halton', 'model evaluation failed: ' + e)
@@ -1372,6 +1471,60 @@ def stream_table(ctx, rep, ref, cat):
 # =====================================================================================
 # stream: get_latin_hypercube_draws called directly with given uniform numbers
 # =====================================================================================
+def mlhs_us(c):
+    """the uniform numbers passed to get_latin_hypercube_draws for case c (None: drawn by the function itself);
+    20-bit numbers of (0,1): i + u is exact in binary64"""
+    import random
+    if c['us_kind'] == 'rng':
+        return None
+    g = random.Random(c['us_seed'])
+    N = c['ss'] * c['n']
+    if c['us_kind'] == 'edges':
+        return [[g.choice([1, 2 ** 20 - 1, 2 ** 19]), 2 ** 20] for _ in range(N)]     # ends and middle of the stratum
+    return [[g.randrange(1, 2 ** 20), 2 ** 20] for _ in range(N)]
+
+
+def check_mlhs_call(rep, st, batch, owner, c, r):
+    N = c['ss'] * c['n']
+    small = dict(c)
+    us = mlhs_us(c)
+    how = (f"np.random.seed({c['seed']}); draws.get_latin_hypercube_draws({c['ss']}, {c['n']}, symmetric={c['symmetric']}"
+           + (f", uniform_numbers=<{c['us_kind']} 20-bit numbers, random.Random({c['us_seed']})>)" if us is not None else ")"))
+    key = 'C11/mlhs/direct' + ('-sym' if c['symmetric'] else '')
+    if not r.get('ok'):
+        rep(key + '-exception', f'get_latin_hypercube_draws raised {r.get("exc")}', small, 'an array', r, how)
+        return
+    if r['shape'] != [c['ss'], c['n']] or r['rows'] is None:
+        rep(key + '-shape', f'get_latin_hypercube_draws returned shape {r["shape"]}', small, [c['ss'], c['n']], r['shape'], how)
+        return
+    flat = [x for row in r['rows'] for x in row]
+    if not all(finite(x) for x in flat):
+        rep(key + '-nonfinite', 'non-finite draw', small, None, None, how)
+        return
+    ok, msg = strata_ok(flat, N, c['symmetric'])
+    if not ok:
+        rep(key + '-strata', f'get_latin_hypercube_draws does not put one point in each of {N} strata: {msg}',
+            small, 'one point per stratum', msg, how)
+    want_uniform = 0 if us is not None else 1
+    if len(r['shuffle']) != 1 or not r['shuffle_ok'] or len(r['shuffle'][0]) != N or r['n_uniform'] != want_uniform:
+        st.disagree(small, f'one np.random.shuffle of all numbers, {want_uniform} call(s) of np.random.uniform',
+                    f'{len(r["shuffle"])} shuffles, {r["n_uniform"]} uniform calls')
+        return
+    if N > 12000 or batch is None:
+        return
+    tol = sym_tol(MLHS_TOL) if c['symmetric'] else MLHS_TOL
+    if us is not None:
+        usq = '[' + ';\n '.join('[' + '; '.join(f'(P {v} 20)' for v, _ in ch) + ']' for ch in chunks(us)) + ']'
+    else:
+        got_us = (r.get('uniform') or [[]])[0]
+        if len(got_us) != N or not all_finite(got_us):
+            st.disagree(small, f'{N} finite uniform numbers drawn', f'{len(got_us)} numbers observed')
+            return
+        usq = '[' + ';\n '.join(coq_qlist(ch) for ch in chunks(got_us)) + ']'
+    batch.add(owner, f'chk_mlhs {usq} {coq_nlist(r["shuffle"][0])} {coq_bool(c["symmetric"])} {coq_frac(tol)} '
+                     f'{c["ss"]} {c["n"]} {coq_qrows(r["rows"])}', 3 * N + 50)
+
+
 def stream_mlhs(ctx, rep):
     st = ctx.stream('mlhs', '')
     rng = ctx.sub_rng('mlhs')
@@ -1381,54 +1534,26 @@ def stream_mlhs(ctx, rep):
         n = rng.choice([1, 2, 3, 4, 10, 32, 64, 100])
         if ss * n > ctx.n(700, 2000):
             n = max(1, ctx.n(700, 2000) // ss)
-        N = ss * n
-        kind = rng.random()
-        us = []
-        for _i in range(N):
-            if kind < 0.2:
-                v = rng.choice([1, 2 ** 20 - 1, 2 ** 19])       # ends and middle of the stratum
-            else:
-                v = rng.randrange(1, 2 ** 20)                   # 20-bit numbers of (0,1): i + u is exact in binary64
-            us.append([v, 2 ** 20])
-        cases.append(dict(ss=ss, n=n, symmetric=rng.random() < 0.4, us=us, seed=rng.randrange(1, 2 ** 31)))
-    res = run_impl(ctx, 'mlhs', cases)
+        kind = rng.choice(['given', 'given', 'given', 'edges', 'rng'])
+        cases.append(dict(ss=ss, n=n, symmetric=rng.random() < 0.4, us_kind=kind, us_seed=rng.randrange(1, 2 ** 31),
+                          seed=rng.randrange(1, 2 ** 31)))
+    # size thresholds: more than 100000 points, with and without user numbers (oracle only, no Coq)
+    for kind in ([rng.choice(['given', 'rng'])] if ctx.quick else ['given', 'rng', 'given', 'rng']):
+        ss = rng.choice([250, 400, 500, 1000])
+        n = 100000 // ss + rng.randint(1, 40)
+        cases.append(dict(ss=ss, n=n, symmetric=rng.random() < 0.4, us_kind=kind, us_seed=rng.randrange(1, 2 ** 31),
+                          seed=rng.randrange(1, 2 ** 31)))
+    res = run_impl(ctx, 'mlhs', [dict(c, us=mlhs_us(c)) for c in cases])
     batch = Batch(ctx, 'mlhs')
     for i, (c, r) in enumerate(zip(cases, res)):
-        N = c['ss'] * c['n']
-        small = {k: c[k] for k in ('ss', 'n', 'symmetric', 'seed')}
-        small['us_head'] = c['us'][:4]
-        st.record(small, nontrivial=N >= 2)
-        how = (f"np.random.seed({c['seed']}); draws.get_latin_hypercube_draws({c['ss']}, {c['n']}, symmetric={c['symmetric']}, "
-               f"uniform_numbers=np.array([v / 2**20 for v in ...]))")
-        key = 'C11/mlhs/direct' + ('-sym' if c['symmetric'] else '')
-        if not r.get('ok'):
-            rep(key + '-exception', f'get_latin_hypercube_draws raised {r.get("exc")}', c, 'an array', r, how)
-            continue
-        if r['shape'] != [c['ss'], c['n']] or r['rows'] is None:
-            rep(key + '-shape', f'get_latin_hypercube_draws returned shape {r["shape"]}', small, [c['ss'], c['n']], r['shape'], how)
-            continue
-        flat = [x for row in r['rows'] for x in row]
-        if not all(finite(x) for x in flat):
-            rep(key + '-nonfinite', 'non-finite draw', small, None, None, how)
-            continue
-        ok, msg = strata_ok(flat, N, c['symmetric'])
-        if not ok:
-            rep(key + '-strata', f'get_latin_hypercube_draws does not put one point in each of {N} strata: {msg}', c,
-                'one point per stratum', msg, how)
-        if len(r['shuffle']) != 1 or not r['shuffle_ok'] or len(r['shuffle'][0]) != N or r['n_uniform']:
-            st.disagree(small, 'one np.random.shuffle of all numbers, no other use of the RNG',
-                        f'{len(r["shuffle"])} shuffles, {r["n_uniform"]} uniform calls')
-            continue
-        tol = sym_tol(MLHS_TOL) if c['symmetric'] else MLHS_TOL
-        usq = '[' + ';\n '.join('[' + '; '.join(f'(P {v} 20)' for v, _ in ch) + ']' for ch in chunks(c['us'])) + ']'
-        batch.add(i, f'chk_mlhs {usq} {coq_nlist(r["shuffle"][0])} {coq_bool(c["symmetric"])} {coq_frac(tol)} '
-                     f'{c["ss"]} {c["n"]} {coq_qrows(r["rows"])}', 3 * N + 50)
+        st.record(c, nontrivial=c['ss'] * c['n'] >= 2)
+        check_mlhs_call(rep, st, batch, i, c, r)
     out, errs = batch.run()
     for e in errs:
         ctx.stream_broken('mlhs', 'model evaluation failed: ' + e)
     for i, v in out.items():
         if v is False:
-            st.disagree({k: cases[i][k] for k in ('ss', 'n', 'symmetric', 'seed')}, 'mlhs (Coq)',
+            st.disagree(cases[i], 'mlhs (Coq)',
                         {'first_row': res[i]['rows'][0][:6]})
     if st.disagreements and not any(b['name'] == 'C11/mlhs' for b in ctx.broken):
         ctx.stream_broken('mlhs', f'{len(st.disagreements)} disagreements, first: {json.dumps(st.disagreements[0])[:600]}')
@@ -1609,34 +1734,49 @@ def run(ctx):
     rep = Reporter(ctx)
     ref = AS241()
     extracted = cat is not None
+
+    def guard(name, fn, *a, **k):
+        # a mutated library must yield data, never a harness crash: an exception inside a stream is reported as that
+        # stream no longer checking (rc 1), with the traceback
+        try:
+            fn(*a, **k)
+        except Exception:  # noqa
+            import traceback
+            ctx.stream_broken(name, 'the harness could not process what the implementation returned:\n'
+                              + traceback.format_exc()[-1500:])
+
     if cat is None:
         # the table cannot be read any more: fall back on the live dictionary for the oracles
         cat = fallback_catalogue(ctx)
-        stream_types(ctx, rep, ref, cat, SIZES, coq=False)
+    rsel = ctx.sub_rng('large')
+    mlhs_keys = [r['key'] for r in cat if r['family'] == 'FMLHS']
+    if ctx.quick:   # one Latin-hypercube type and one other type with more than 100000 generated points
+        large = {rsel.choice(mlhs_keys), rsel.choice([r['key'] for r in cat if r['family'] != 'FMLHS'])}
     else:
-        sizes = list(SIZES)
-        if not ctx.quick:
-            rng = ctx.sub_rng('sizes')
-            sizes += [(rng.choice([1, 2, 4, 9, 17, 33]), 2 * rng.randrange(1, 120)) for _ in range(10)]
-        stream_types(ctx, rep, ref, cat, sizes)
-        lap('types')
-        stream_database(ctx, rep, cat)
-        lap('database')
-    stream_halton(ctx, rep)
-    stream_histories(ctx, rep, ref, cat, coq=extracted)
-    stream_table(ctx, rep, ref, cat)
+        large = {r['key'] for r in cat}
+    sizes = list(SIZES)
+    if not ctx.quick:
+        rng = ctx.sub_rng('sizes')
+        sizes += [(rng.choice([1, 2, 4, 9, 17, 33]), 2 * rng.randrange(1, 120)) for _ in range(10)]
+    guard('shape', stream_types, ctx, rep, ref, cat, sizes, coq=extracted, boundary=ctx.n(3, 12), large=large)
+    lap('types')
+    guard('shape', stream_database, ctx, rep, cat)
+    lap('database')
+    guard('halton', stream_halton, ctx, rep)
+    guard('halton', stream_histories, ctx, rep, ref, cat, coq=extracted)
+    guard('table', stream_table, ctx, rep, ref, cat)
     lap('halton')
-    stream_mlhs(ctx, rep)
+    guard('mlhs', stream_mlhs, ctx, rep)
     lap('mlhs')
     if consts is None:
         try:
             _, consts = Extractor().wichura()
         except Exception:
             consts = {}
-    stream_quantile(ctx, rep, ref, consts, w)
+    guard('quantile', stream_quantile, ctx, rep, ref, consts, w)
     lap('quantile')
     if ctx.broken and not ctx.violations:
-        search_more(ctx, rep, ref, cat)
+        guard('shape', search_more, ctx, rep, ref, cat)
 
 
 def fallback_catalogue(ctx):
@@ -1660,7 +1800,7 @@ def search_more(ctx, rep, ref, cat):
     rng = ctx.sub_rng('search')
     sizes = [(1, 2), (2, 2), (1, 4), (2, 6), (5, 20), (11, 30), (3, 100), (31, 8)]
     sizes += [(rng.randrange(1, 40), 2 * rng.randrange(1, 60)) for _ in range(ctx.n(6, 40))]
-    stream_types(ctx, rep, ref, cat, sizes, coq=False, tag='search')
+    stream_types(ctx, rep, ref, cat, sizes, coq=False, tag='search', boundary=8)
 
 
 def replay(ctx, path):
@@ -1696,6 +1836,13 @@ def _replay(ctx, path):
         check_table(ctx, rep, ref, cat, c, r)
         bad = list(ctx.violations)
         print(json.dumps({'table': c, 'still_fails': bool(bad), 'violations': [v['key'] for v in bad]}))
+        return 1 if bad else 0
+    if 'us_kind' in wit:
+        c = {k: wit[k] for k in ('ss', 'n', 'symmetric', 'us_kind', 'us_seed', 'seed')}
+        r = run_impl(ctx, 'mlhs', [dict(c, us=mlhs_us(c))])[0]
+        check_mlhs_call(rep, ctx.stream('mlhs', 'replay'), None, 0, c, r)
+        bad = list(ctx.violations)
+        print(json.dumps({'witness': c, 'still_fails': bool(bad), 'violations': [v['key'] for v in bad]}))
         return 1 if bad else 0
     if 'u' in wit and 'key' not in wit:
         r = run_impl(ctx, 'quantile', [{'us': [float(wit['u']).hex()]}])[0]
